@@ -515,7 +515,17 @@ pub fn pressure_red(s: &St) -> f64 {
 /// iteration; the Newton finish is not bounded by it) *and* that violates a condition.
 pub fn check_phases(obs: &mut Obs, tag: &str, kind: Kind, phases: &[&St], tol: &Tols) -> bool {
     let beyond = kind == Kind::BubbleDew && phases.iter().any(|s| rel_density(s) > 1.0);
-    if !beyond {
+    // outer band of the near-trivial signature: phases that agree to 1e-2..3e-2 in density and
+    // composition (the drift towards the trivial solution stopped a little earlier; seen with
+    // max|dx| = 1.01e-2 and pressures 2.5e-5 apart at 3000 bar). Unlike the inner band (<= 1e-2,
+    // everything masked) only a result that VIOLATES the conditions is attributed to the finding.
+    let near_band = kind == Kind::BubbleDew && phases.len() == 2 && {
+        let (a, b) = (phases[0], phases[1]);
+        let dx = (&a.molefracs - &b.molefracs).mapv(f64::abs).fold(0.0, |m: f64, v| m.max(*v));
+        let drho = (a.density.to_reduced() / b.density.to_reduced() - 1.0).abs();
+        (drho > 1e-2 || dx > 1e-2) && !(drho > 3e-2 || dx > 3e-2)
+    };
+    if !beyond && !near_band {
         return check_phases_inner(obs, tag, kind, phases, tol);
     }
     let mut tmp = Obs::default();
@@ -528,8 +538,14 @@ pub fn check_phases(obs: &mut Obs, tag: &str, kind: Kind, phases: &[&St], tol: &
         obs.known_or_fail(&id, m);
     }
     if tmp.fails.is_empty() {
-        obs.class("phase beyond max_density, conditions hold");
+        if beyond {
+            obs.class("phase beyond max_density, conditions hold");
+        }
         ok
+    } else if !beyond {
+        obs.class("known signature: near-trivial two-phase result (outer band 1e-2..3e-2, conditions violated)");
+        obs.known_or_fail(KF_NEAR_TRIVIAL, format!("{tag}: phases agree to 3e-2: {}", tmp.fails.join(" | ")));
+        false
     } else {
         obs.class("known signature: phase beyond max_density violating the conditions");
         obs.known_or_fail(
